@@ -31,6 +31,12 @@ OPS_PRE = {
 }
 
 
+# operation sequences abstracted into one opaque hub step (each justified by a proved hub lemma that is
+# `broadcast use`d in the generated lemma): name -> (ops, chain fn, lemma)
+POW2_SEQ = ['Push(2)', 'Pad', 'Incr', 'Swap', 'Pad'] + ['Expacc'] * 6 + ['Drop', 'Drop', 'Swap', 'Eqz', 'Assert(0)']
+MACROS = [('pow2', POW2_SEQ, 'pow2_chain', 'lemma_pow2_chain')]
+
+
 class E2Error(Exception):
     pass
 
@@ -212,8 +218,20 @@ class Gen:
         """st = (s, ok, pre, k) variable names; returns new names"""
         kind = node[0]
         if kind == 'span':
-            for op in node[1]:
-                st = self.emit_op(op, st)
+            ops = node[1]
+            i = 0
+            while i < len(ops):
+                hit = None
+                for mname, mseq, mfn, mlem in MACROS:
+                    if ops[i:i + len(mseq)] == mseq:
+                        hit = (mname, mseq, mfn, mlem)
+                        break
+                if hit and self.sym is None:
+                    st = self.emit_macro(hit, st)
+                    i += len(hit[1])
+                else:
+                    st = self.emit_op(ops[i], st)
+                    i += 1
             return st
         if kind == 'join':
             st = self.emit_block(node[1][0], st)
@@ -236,6 +254,15 @@ class Gen:
             self.lines.append('let s%d = r%d.0; let ok%d = r%d.1; let pre%d = r%d.2; let k%d = r%d.3;' % (j, j, j, j, j, j, j, j))
             return ('s%d' % j, 'ok%d' % j, 'pre%d' % j, 'k%d' % j)
         raise E2Error('block kind %s not supported by the lemma generator' % kind)
+
+    def emit_macro(self, hit, st):
+        mname, mseq, mfn, mlem = hit
+        s, ok, pre, k = st
+        i = self.fresh()
+        self.nops += len(mseq)
+        self.lemmas_used = getattr(self, 'lemmas_used', set()) | {mlem}
+        self.lines.append('let c%d = %s(%s); let s%d = c%d.0; let ok%d = %s && c%d.1;' % (i, mfn, s, i, i, i, ok, i))
+        return ('s%d' % i, 'ok%d' % i, pre, k)
 
     def emit_op(self, op, st):
         s, ok, pre, k = st
@@ -352,6 +379,8 @@ def generate(specfile, repo, verif):
             lines.append('        &&& ok')
         lines.append('    })')
         lines.append('{')
+        for lem in sorted(getattr(g, 'lemmas_used', set())):
+            lines.append('    broadcast use %s;' % lem)
         step_lemmas = []
         if e.get('chain_in_body'):
             forms = {f[0]: f for f in g.forms}
